@@ -40,6 +40,10 @@ func controlCondsPol(b *ssa.BasicBlock) []ctrlCond {
 		if s0 == s1 {
 			continue
 		}
+		// the exit test of a loop does not control what follows the loop (the loop is left eventually)
+		if inCycle(d) && !reachesBlock(b, d) {
+			continue
+		}
 		cond, taken := ifi.Cond, s0
 		for {
 			if u, ok := cond.(*ssa.UnOp); ok && u.Op == token.NOT {
